@@ -1949,3 +1949,276 @@ Proof.
   induction 1 as [|x t R IH St]; [apply J_init|].
   apply J_step; auto. apply (ireach_inv progs x R).
 Qed.
+
+(* ---------------- property-level definitions and lemmas ---------------- *)
+Definition owns (x : ist) (t : nat) : Prop := role x t = Owner.
+Definition announced (x : ist) (t : nat) : Prop := role x t = Announced.
+(* frames: thread t is between acquiring and the fetch_add of its unlock *)
+Definition in_cs (s : st) (t : nat) : Prop :=
+  exists r, stk s t = CWrite 0 (Zn t + 1) :: r \/ stk s t = CRead 0 :: r \/ stk s t = UAdd 0 :: r.
+(* frames: thread d is inside wake_from_mpsc_queue of a contended unlock and has not popped yet *)
+Definition in_pop_loop (s : st) (d : nat) : Prop :=
+  exists kf p k, stk s d = kframes kf ++ [UWoke; UYield; FC (MUnlocked p k 1)] /\ kpre kf = true.
+(* frames: thread w has popped a waiter and is on its way to wake it *)
+Definition in_wake_path (s : st) (w : nat) : Prop :=
+  exists kf p k, stk s w = kframes kf ++ [UWoke; UYield; FC (MUnlocked p k 1)] /\ kpre kf = false.
+
+(* how the ghost role shows in the frames *)
+Definition role_shape (x : ist) (t : nat) : Prop :=
+  match role x t with
+  | Owner => in_cs (base x) t \/ stk (base x) t = [] \/ (In LWaited (stk (base x) t) /\ hand x t <> HNone)
+  | Announced => In LWaited (stk (base x) t) /\ hand x t = HNone
+  | Idle => ~ in_cs (base x) t /\ ~ In LWaited (stk (base x) t)
+  end.
+
+Lemma wq_role v : wq v -> (vha v = HNone /\ vro v = Announced) \/ (vha v <> HNone /\ vro v = Owner).
+Proof. unfold wq. destruct (vha v); intros H; [left|right|right|right]; split; try discriminate; tauto. Qed.
+
+Lemma role_shape_inv x t : Inv x -> role_shape x t.
+Proof.
+  intros HI. destruct (I_thr x HI t) as (p & Hs & HL & _). unfold role_shape, in_cs. rewrite Hs.
+  assert (NC : forall (fr : frame mc) r, (forall c v, fr <> CWrite c v) -> (forall c, fr <> CRead c) -> (forall q, fr <> UAdd q) ->
+          ~ (exists r0, fr :: r = CWrite 0 (Zn t + 1) :: r0 \/ fr :: r = CRead 0 :: r0 \/ fr :: r = UAdd 0 :: r0)).
+  { intros fr r A B C (r0 & [E|[E|E]]); injection E; intros; subst; [eapply A|eapply B|eapply C]; reflexivity. }
+  assert (RR : forall r0, vro (view_of x t) = r0 -> role x t = r0) by (intros r0 E; exact E).
+  destruct p as [pr| |p k|p k|p k r|p k|p k|w p k|kf p k|p k|st p k].
+  - destruct HL as (_ & Hr & _). rewrite (RR _ Hr). split; [apply NC; discriminate|cbn; intuition discriminate].
+  - destruct HL as (_ & [Hr|Hr] & _); rewrite (RR _ Hr);
+    [split; [intros (r0 & [E|[E|E]]); discriminate|intros []]|auto].
+  - destruct HL as (_ & Hr & _). rewrite (RR _ Hr). split; [apply NC; discriminate|cbn; intuition discriminate].
+  - destruct HL as (_ & Hr & _). rewrite (RR _ Hr). split; [apply NC; discriminate|cbn; intuition discriminate].
+  - destruct HL as (_ & Hr & _). rewrite (RR _ Hr). left. eexists. left. reflexivity.
+  - destruct HL as (_ & Hr & _). rewrite (RR _ Hr). left. eexists. right. left. reflexivity.
+  - destruct HL as (_ & Hr & _). rewrite (RR _ Hr). left. eexists. right. right. reflexivity.
+  - assert (HW : In LWaited (stk_of t (PW w p k))) by (destruct w; cbn; auto).
+    assert (R : (hand x t = HNone /\ role x t = Announced) \/ (hand x t <> HNone /\ role x t = Owner)).
+    { destruct HL as [HL _]. destruct w; cbn [Lw] in HL.
+      - destruct HL as (_ & A & B & _). left. split; assumption.
+      - destruct HL as (_ & A & B & _). left. split; assumption.
+      - destruct HL as ((_ & _ & _ & A & B & _) & _). left. split; assumption.
+      - destruct HL as ((_ & _ & _ & A & B & _) & _). left. split; assumption.
+      - destruct HL as ((_ & _ & _ & A & B & _) & _). left. split; assumption.
+      - destruct HL as [HL|HL]; apply (wq_role _ (proj1 HL)).
+      - destruct HL as [_ [HL|HL]]; apply (wq_role _ (proj1 HL)).
+      - apply (wq_role _ (proj1 HL)).
+      - apply (wq_role _ (proj1 HL)).
+      - apply (wq_role _ (proj1 HL)).
+      - apply (wq_role _ (proj1 HL)).
+      - apply (wq_role _ (proj1 HL)).
+      - apply (wq_role _ (proj1 HL)). }
+    destruct R as [[A B]|[A B]]; rewrite B; auto.
+  - destruct HL as ((_ & Hr & _) & _). rewrite (RR _ Hr). split; [destruct kf; apply NC; discriminate|].
+    destruct kf; cbn; intuition discriminate.
+  - destruct HL as ((_ & Hr & _) & _). rewrite (RR _ Hr). split; [apply NC; discriminate|cbn; intuition discriminate].
+  - destruct HL as ((_ & Hr & _) & _). rewrite (RR _ Hr). split; [apply NC; discriminate|cbn; intuition discriminate].
+Qed.
+
+(* threads that do not exist never move *)
+Lemma ireach_frozen progs x : ireach progs x ->
+  nthr (base x) = length progs /\
+  forall t, (length progs <= t)%nat -> stk (base x) t = [Start; FC (MNext [] 1 false)].
+Proof.
+  induction 1 as [|x t R [IH1 IH2] St].
+  - split; [reflexivity|]. intros t Ht. cbn. now rewrite nth_overflow.
+  - split.
+    + rewrite gstep_base. unfold step.
+      destruct (kstep mc cret (mem (base x)) t (stk (base x) t)) as [[m1 e1] s1]. exact IH1.
+    + intros u Hu. rewrite stk_gstep_other; [auto|]. intros ->. unfold status_of in St.
+      destruct (Nat.ltb_spec t (nthr (base x))); [lia|discriminate].
+Qed.
+
+Lemma K_thread_exists progs x w kf p k :
+  ireach progs x -> stk (base x) w = stk_of w (PK kf p k) -> (w < nthr (base x))%nat.
+Proof.
+  intros R Hs. destruct (ireach_frozen progs x R) as [E F]. rewrite E.
+  destruct (Nat.lt_ge_cases w (length progs)) as [H|H]; [exact H|].
+  rewrite (F w H) in Hs. destruct kf; discriminate.
+Qed.
+
+(* ---- C03.1 exclusion ---- *)
+Lemma cs_owns x t : Inv x -> in_cs (base x) t -> owns x t.
+Proof.
+  intros HI (r & Hc). destruct (I_thr x HI t) as (p & Hs & HL & _). rewrite Hs in Hc.
+  destruct p as [pr| |p k|p k|p k r0|p k|p k|[] p k|[] p k|p k|st p k];
+  try (exfalso; destruct Hc as [E|[E|E]]; discriminate); apply HL.
+Qed.
+
+Lemma trylock_free x t r : Inv x ->
+  stk (base x) t = TCas 0 :: r -> word (mem (base x)) 0 = 1 ->
+  forall u, ~ owns x u /\ ~ announced x u.
+Proof.
+  intros HI _ Hw u. pose proof (I_count x (I_C x HI)) as Hc. rewrite Hw in Hc.
+  split; intros H; [pose proof (owner_counted x HI u H)|pose proof (ann_counted x HI u H)]; lia.
+Qed.
+
+Lemma trylock_busy x t r : Inv x ->
+  stk (base x) t = TCas 0 :: r -> (exists u, owns x u) -> word (mem (base x)) 0 <> 1.
+Proof.
+  intros HI Hs [u Hu] Hw. destruct (trylock_free x t r HI Hs Hw u) as [A _]. auto.
+Qed.
+
+(* ---- C03.3 visibility ---- *)
+Lemma readback_sees_own x t p k r : Inv x ->
+  stk (base x) t = CRead 0 :: FC (MReadBack p k) :: r -> cell (mem (base x)) 0 = Zn t + 1.
+Proof.
+  intros HI Hc. destruct (I_thr x HI t) as (q & Hs & _ & HX). rewrite Hs in Hc.
+  destruct q as [pr| |p0 k0|p0 k0|p0 k0 r0|p0 k0|p0 k0|[] p0 k0|[] p0 k0|p0 k0|st p0 k0];
+  try discriminate. exact HX.
+Qed.
+
+Lemma unlock_reports_1 x t p k v : Inv x ->
+  In (FC (MUnlocked p k v)) (stk (base x) t) -> v = 1.
+Proof.
+  intros HI Hc. destruct (I_thr x HI t) as (q & Hs & _ & _). rewrite Hs in Hc.
+  destruct q as [pr| |p0 k0|p0 k0|p0 k0 r0|p0 k0|p0 k0|[] p0 k0|[] p0 k0|p0 k0|st p0 k0];
+  cbn in Hc; repeat (destruct Hc as [Hc|Hc]; [try discriminate; injection Hc; intros; subst; reflexivity|]);
+  destruct Hc.
+Qed.
+
+(* ---- C03.4 hand-off ---- *)
+Lemma handoff_inv x t : Inv x ->
+  (ucont x t = false -> ulog x t = []) /\
+  (ulog x t = [] \/
+   (exists f, ulog x t = [GPop f] /\ owns x f /\ (hand x f = HPopped t \/ hand x f = HNode t) /\
+              in_wake_path (base x) t) \/
+   (exists f, ulog x t = [GPop f; GWake f])) /\
+  (in_pop_loop (base x) t -> ucont x t = true /\ ulog x t = [] /\ debt x = Some t) /\
+  (forall r, stk (base x) t = YRead :: UDone :: r -> exists f, ulog x t = [GPop f; GWake f]).
+Proof.
+  intros HI. destruct (I_thr x HI t) as (q & Hs & HL & HX).
+  assert (DL : done_log (view_of x t) ->
+    (ucont x t = false -> ulog x t = []) /\
+    (ulog x t = [] \/
+     (exists f, ulog x t = [GPop f] /\ owns x f /\ (hand x f = HPopped t \/ hand x f = HNode t) /\
+                in_wake_path (base x) t) \/
+     (exists f, ulog x t = [GPop f; GWake f]))).
+  { intros [D1 D2]. cbn in D1, D2. split; [exact D1|]. destruct (ucont x t); auto. }
+  assert (NK : (forall kf pp k, q <> PK kf pp k) -> in_pop_loop (base x) t -> False).
+  { intros Hn (kf & pp & k & E & _). rewrite Hs in E. apply (stk_of_K_inj t q kf pp k) in E. eapply Hn; eauto. }
+  destruct q as [pr| |p0 k0|p0 k0|p0 k0 r0|p0 k0|p0 k0|w p0 k0|kf p0 k0|p0 k0|st p0 k0].
+  1-8: assert (D : done_log (view_of x t)) by (try apply HL; destruct HL as [_ D]; exact D);
+       destruct (DL D) as [A B]; split; [exact A|]; split; [exact B|]; split;
+       [intros Hp; exfalso; apply (NK ltac:(discriminate) Hp)|];
+       intros r E; rewrite Hs in E; try discriminate; destruct w; discriminate.
+  - destruct HL as ((_ & _ & _ & Hu) & Hul & _). cbn in Hu, Hul.
+    split; [intros E; rewrite Hu in E; discriminate|].
+    assert (Post : kpre kf = false -> forall f hh, popping x t f hh -> hh = HPopped t \/ hh = HNode t ->
+             exists f, ulog x t = [GPop f] /\ owns x f /\ (hand x f = HPopped t \/ hand x f = HNode t) /\
+                       in_wake_path (base x) t).
+    { intros K f hh (P1 & P2 & P3) Hh. exists f. split; [exact P3|]. split; [exact P2|].
+      split; [destruct Hh as [-> | ->]; auto|]. exists kf, p0, k0. rewrite Hs. auto. }
+    split; [|split].
+    + destruct kf; cbn in HX; try (left; apply Hul; reflexivity); right; left.
+      * destruct HX as (_ & f & _ & P). apply (Post eq_refl f _ P); auto.
+      * destruct HX as (f & _ & P). apply (Post eq_refl f _ P); auto.
+      * destruct HX as (f & _ & P). apply (Post eq_refl f _ P); auto.
+      * apply (Post eq_refl f _ HX); auto.
+      * destruct HX as [P _]. apply (Post eq_refl f _ P); auto.
+    + intros (kf' & pp & k & E & K). rewrite Hs in E. apply (stk_of_K_inj t) in E. injection E as -> _ _.
+      split; [exact Hu|]. split; [apply Hul; exact K|]. destruct kf'; try discriminate; cbn in HX; tauto.
+    + intros r E. rewrite Hs in E. destruct kf; discriminate.
+  - destruct HL as ((_ & _ & _ & Hu) & f & Hf). cbn in Hu, Hf.
+    split; [intros E; rewrite Hu in E; discriminate|]. split; [right; right; eauto|]. split.
+    + intros Hp. exfalso. apply (NK ltac:(discriminate) Hp).
+    + intros _ _. eauto.
+  - destruct HL as ((_ & _ & _ & Hu) & _ & f & Hf). cbn in Hu, Hf.
+    split; [intros E; rewrite Hu in E; discriminate|]. split; [right; right; eauto|]. split.
+    + intros Hp. exfalso. apply (NK ltac:(discriminate) Hp).
+    + intros r E. rewrite Hs in E. discriminate.
+Qed.
+
+(* ---- C03.5 no stranded waiter, no lost wake-up ---- *)
+Lemma no_owner_dec x : Inv x -> (forall u, ~ owns x u) \/ exists u, owns x u.
+Proof.
+  intros HI. destruct (Nat.eq_dec (nown x) 0) as [E|N].
+  - left. intros u. apply (nown0_no_owner x HI u E).
+  - right. destruct (cnt_ex (fun u => is_owner (role x u)) (nthr (base x))) as (u & _ & Hu).
+    { unfold nown in N. lia. }
+    exists u. unfold owns. destruct (role x u); try discriminate; reflexivity.
+Qed.
+
+Lemma stranded_obligation x t : Inv x ->
+  announced x t -> (forall u, ~ owns x u) ->
+  exists d, debt x = Some d /\ in_pop_loop (base x) d.
+Proof.
+  intros HI Ha Hn. destruct (debt x) as [d|] eqn:Hd.
+  - exists d. split; [reflexivity|]. destruct (I_debt_k x HI d Hd) as (kf & p & k & E & K).
+    exists kf, p, k. auto.
+  - exfalso. pose proof (ann_counted x HI t Ha). destruct (I_nodebt x (I_C x HI) Hd) as [E|E]; [|lia].
+    destruct (cnt_ex (fun u => is_owner (role x u)) (nthr (base x))) as (u & _ & Hu).
+    { fold (nown x). lia. }
+    apply (Hn u). unfold owns. destruct (role x u); try discriminate; reflexivity.
+Qed.
+
+(* an owner that is asleep has its wake-up on the way *)
+Lemma sleeping_owner_has_waker x f r : Inv x -> J x ->
+  owns x f -> stk (base x) f = Asleep :: r -> blocked (mem (base x)) f = true ->
+  exists w, (hand x f = HPopped w \/ hand x f = HNode w) /\ in_wake_path (base x) w.
+Proof.
+  intros HI HJ Ho Hs Hb. destruct (I_thr x HI f) as (q & Hq & HL & _). rewrite Hq in Hs.
+  destruct q as [pr| |p0 k0|p0 k0|p0 k0 r0|p0 k0|p0 k0|[] p0 k0|[] p0 k0|p0 k0|st p0 k0]; try discriminate.
+  destruct HL as ((W & [(A & _ & _)|(_ & B & _)]) & _); [|cbn in B; congruence].
+  cbn in A. unfold wq in W. cbn in W. unfold owns in Ho.
+  destruct (hand x f) as [|w|w|] eqn:Hh; [destruct W; congruence| | |congruence].
+  - exists w. split; [auto|]. destruct (HJ f w) as [_ (kf & p & k & E & K)]; [rewrite Hh; auto|].
+    exists kf, p, k. auto.
+  - exists w. split; [auto|]. destruct (HJ f w) as [_ (kf & p & k & E & K)]; [rewrite Hh; auto|].
+    exists kf, p, k. auto.
+Qed.
+
+Definition quiescent (s : st) : Prop := forall t, status_of s t <> SReady.
+
+Lemma K_runnable progs x w kf p k : ireach progs x ->
+  stk (base x) w = kframes kf ++ [UWoke; UYield; FC (MUnlocked p k 1)] -> status_of (base x) w = SReady.
+Proof.
+  intros R Hs. pose proof (K_thread_exists progs x w kf p k R Hs) as Hw. unfold status_of.
+  destruct (Nat.ltb_spec w (nthr (base x))); [|lia]. rewrite Hs. destruct kf; reflexivity.
+Qed.
+
+Lemma quiescent_shape progs x : ireach progs x -> quiescent (base x) ->
+  forall t, (t < nthr (base x))%nat ->
+    stk (base x) t = [] \/
+    (announced x t /\ (exists r, stk (base x) t = Asleep :: r) /\ blocked (mem (base x)) t = true /\
+     exists u, owns x u /\ stk (base x) u = []).
+Proof.
+  intros R Q t Ht. pose proof (ireach_inv progs x R) as HI. pose proof (ireach_J progs x R) as HJ.
+  assert (Sh : forall u, (u < nthr (base x))%nat ->
+           stk (base x) u = [] \/ ((exists r, stk (base x) u = Asleep :: r) /\ blocked (mem (base x)) u = true)).
+  { intros u Hu. specialize (Q u). unfold status_of in Q.
+    destruct (Nat.ltb_spec u (nthr (base x))); [|lia].
+    destruct (stk (base x) u) as [|fr r]; [auto|]. right.
+    destruct fr; try (exfalso; apply Q; reflexivity). cbn in Q.
+    destruct (blocked (mem (base x)) u); [eauto|exfalso; apply Q; reflexivity]. }
+  assert (NoSleepOwner : forall u r, owns x u -> stk (base x) u = Asleep :: r ->
+                                     blocked (mem (base x)) u = true -> False).
+  { intros u r Ho Hs Hb. destruct (sleeping_owner_has_waker x u r HI HJ Ho Hs Hb) as (w & _ & kf & p & k & E & _).
+    apply (Q w). apply (K_runnable progs x w kf p k R E). }
+  destruct (Sh t Ht) as [E|[[r Hs] Hb]]; [auto|]. right.
+  pose proof (role_shape_inv x t HI) as RS. unfold role_shape in RS.
+  destruct (role x t) eqn:Hr.
+  - exfalso. apply (proj2 RS). rewrite Hs.
+    destruct (I_thr x HI t) as (q & Hq & _). rewrite Hq in Hs.
+    destruct q as [pr| |p0 k0|p0 k0|p0 k0 r0|p0 k0|p0 k0|[] p0 k0|[] p0 k0|p0 k0|st p0 k0]; try discriminate.
+    injection Hs as <-. cbn. auto.
+  - split; [exact Hr|]. split; [eauto|]. split; [exact Hb|].
+    destruct (no_owner_dec x HI) as [Hn|[u Hu]].
+    + exfalso. destruct (stranded_obligation x t HI Hr Hn) as (d & _ & kf & p & k & E & _).
+      apply (Q d). apply (K_runnable progs x d kf p k R E).
+    + exists u. split; [exact Hu|].
+      assert (Hul : (u < nthr (base x))%nat) by (apply (I_role_lt x (I_C x HI)); unfold owns in Hu; congruence).
+      destruct (Sh u Hul) as [E|[[r' Hs'] Hb']]; [exact E|]. exfalso. apply (NoSleepOwner u r' Hu Hs' Hb').
+  - exfalso. apply (NoSleepOwner t r Hr Hs Hb).
+Qed.
+
+(* ---------------- running the ghost machine on a schedule (for examples) ---------------- *)
+Fixpoint irun (x : ist) (sch : list nat) : ist :=
+  match sch with
+  | [] => x
+  | t :: r => irun (match status_of (base x) t with SReady => gstep x t | _ => x end) r
+  end.
+
+Lemma ireach_irun progs sch : forall x, ireach progs x -> ireach progs (irun x sch).
+Proof.
+  induction sch as [|t r IH]; intros x R; cbn; [exact R|]. apply IH.
+  destruct (status_of (base x) t) eqn:E; auto. now constructor.
+Qed.
